@@ -672,11 +672,15 @@ class FieldsJson(FieldValueBase):
 
         attr_fields_dict = attr.fields_dict(cls)
 
-        return cls(**{
-            attribute_name: raw_values[validator_class.get_canonical_name()]
-            for attribute_name, validator_class in cls._get_attr_to_validator_type_dict(attr_fields_dict).items()
-            if validator_class.get_canonical_name() in raw_values
-        }), len(parsable)
+        try:
+            return cls(**{
+                attribute_name: raw_values[validator_class.get_canonical_name()]
+                for attribute_name, validator_class in cls._get_attr_to_validator_type_dict(attr_fields_dict).items()
+                if validator_class.get_canonical_name() in raw_values
+            }), len(parsable)
+        except (TypeError, ValueError, OverflowError) as e:
+            # not a JSON object, a required member missing or a member of the wrong JSON type
+            six.raise_from(InvalidValue(bytes(parsable).decode('ascii', 'replace'), cls, 'value'), e)
 
     def compose(self):
         attr_fields_dict = attr.fields_dict(type(self))
